@@ -382,6 +382,15 @@ enum ImplicitMappingState {
     ///
     /// Note that this state is not set immediately (we need to have encountered the `:` to know).
     Inside,
+    /// The current entry of the flow sequence started with an explicit `?`.
+    ///
+    /// The parser wraps such an entry in a mapping on its own; no token has to be injected for it.
+    Explicit,
+    /// We are directly inside a flow mapping (`{`), where there are no implicit mappings.
+    ///
+    /// Tracking mappings on the same stack keeps a `,` or `:` inside a nested `{ }` from being
+    /// attributed to an enclosing flow sequence.
+    Mapping,
 }
 
 /// The YAML scanner.
@@ -442,22 +451,20 @@ pub struct Scanner<'input, T> {
     token_available: bool,
     /// Whether all characters encountered since the last newline were whitespace.
     leading_whitespace: bool,
-    /// Whether we started a flow mapping.
+    /// An array of states, representing whether flow sequences have implicit mappings.
     ///
     /// This is used to detect implicit flow mapping starts such as:
     /// ```yaml
     /// [ : foo ] # { null: "foo" }
     /// ```
-    flow_mapping_started: bool,
-    /// An array of states, representing whether flow sequences have implicit mappings.
     ///
     /// When a flow mapping is possible (when encountering the first `[` or a `,` in a sequence),
     /// the state is set to [`Possible`].
     /// When we encounter the `:`, we know we are in an implicit mapping and can set the state to
     /// [`Inside`].
     ///
-    /// There is one entry in this [`Vec`] for each nested flow sequence that we are in.
-    /// The entries are created with the opening `]` and popped with the closing `]`.
+    /// There is one entry in this [`Vec`] for each nested flow collection that we are in.
+    /// The entries are created with the opening `[` or `{` and popped with the closing `]` or `}`.
     ///
     /// [`Possible`]: ImplicitMappingState::Possible
     /// [`Inside`]: ImplicitMappingState::Inside
@@ -515,7 +522,6 @@ impl<'input, T: Input> Scanner<'input, T> {
             tokens_parsed: 0,
             token_available: false,
             leading_whitespace: true,
-            flow_mapping_started: false,
             implicit_flow_mapping_states: vec![],
 
             buf_leading_break: String::new(),
@@ -1396,7 +1402,8 @@ impl<'input, T: Input> Scanner<'input, T> {
         self.skip_non_blank();
 
         if tok == TokenType::FlowMappingStart {
-            self.flow_mapping_started = true;
+            self.implicit_flow_mapping_states
+                .push(ImplicitMappingState::Mapping);
         } else {
             self.implicit_flow_mapping_states
                 .push(ImplicitMappingState::Possible);
@@ -1417,9 +1424,9 @@ impl<'input, T: Input> Scanner<'input, T> {
 
         if matches!(tok, TokenType::FlowSequenceEnd) {
             self.end_implicit_mapping(self.mark);
-            // We are out exiting the flow sequence, nesting goes down 1 level.
-            self.implicit_flow_mapping_states.pop();
         }
+        // We are out exiting the flow collection, nesting goes down 1 level.
+        self.implicit_flow_mapping_states.pop();
 
         let start_mark = self.mark;
         self.skip_non_blank();
@@ -2336,8 +2343,12 @@ impl<'input, T: Input> Scanner<'input, T> {
                 start_mark,
             );
         } else {
-            // The scanner, upon emitting a `Key`, will prepend a `MappingStart` event.
-            self.flow_mapping_started = true;
+            // The parser, upon receiving a `Key`, will prepend a `MappingStart` event.
+            if let Some(state) = self.implicit_flow_mapping_states.last_mut() {
+                if *state == ImplicitMappingState::Possible {
+                    *state = ImplicitMappingState::Explicit;
+                }
+            }
         }
 
         self.remove_simple_key()?;
@@ -2397,7 +2408,7 @@ impl<'input, T: Input> Scanner<'input, T> {
         let sk = self.simple_keys.last().unwrap().clone();
         let start_mark = self.mark;
         let is_implicit_flow_mapping =
-            !self.implicit_flow_mapping_states.is_empty() && !self.flow_mapping_started;
+            self.implicit_flow_mapping_states.last() == Some(&ImplicitMappingState::Possible);
         if is_implicit_flow_mapping {
             *self.implicit_flow_mapping_states.last_mut().unwrap() = ImplicitMappingState::Inside;
         }
@@ -2605,11 +2616,15 @@ impl<'input, T: Input> Scanner<'input, T> {
     /// [`implicit_flow_mapping_states`]: Self::implicit_flow_mapping_states
     fn end_implicit_mapping(&mut self, mark: Marker) {
         if let Some(implicit_mapping) = self.implicit_flow_mapping_states.last_mut() {
-            if *implicit_mapping == ImplicitMappingState::Inside {
-                self.flow_mapping_started = false;
-                *implicit_mapping = ImplicitMappingState::Possible;
-                self.tokens
-                    .push_back(Token(Span::empty(mark), TokenType::FlowMappingEnd));
+            match *implicit_mapping {
+                ImplicitMappingState::Inside => {
+                    *implicit_mapping = ImplicitMappingState::Possible;
+                    self.tokens
+                        .push_back(Token(Span::empty(mark), TokenType::FlowMappingEnd));
+                }
+                // The next entry of the sequence may again be an implicit mapping.
+                ImplicitMappingState::Explicit => *implicit_mapping = ImplicitMappingState::Possible,
+                ImplicitMappingState::Possible | ImplicitMappingState::Mapping => {}
             }
         }
     }
